@@ -36,14 +36,16 @@
 // OR treat-as-withdraw when an attribute length overruns the block; reset OR
 // treat-as-withdraw for MP_REACH / MP_UNREACH with wrong flags.
 //
-// Only crate::vx, crate::mkmsg, crate::wire are referenced (so the module can be
+// Only super::vx, super::mkmsg, super::wire are referenced (so the module can be
 // included into the daemon's test build for the end-to-end replay).
 // Reusable API: `corpus(quick)`, `reference`, `observe_messages`, `judge`.
 
-use crate::mkmsg::{self, PairDesc};
-use crate::vx::enumr;
-use crate::vx::report::{catch, hex, unhex, Report, Violation};
-use crate::wire;
+// `super::` (not `crate::`) so that the file also compiles when `include!`d into a module of the
+// daemon crate next to local `vx` / `mkmsg` / `wire` modules (hd/ev_c05.rs); in hx `super` is the crate root.
+use super::mkmsg::{self, PairDesc};
+use super::vx::enumr;
+use super::vx::report::{catch, hex, unhex, Report, Violation};
+use super::wire;
 use rustybgp_packet::bgp::{self as pbgp, Attribute, Family, Message, Nlri, Update};
 use std::collections::{BTreeMap, BTreeSet, HashSet};
 use std::sync::{Mutex, OnceLock};
